@@ -466,6 +466,15 @@ def s2_specs(only_char=False):
             for t2 in T14:
                 if not only_char or C in (t1.ab, t2.ab):
                     yield ('S2', 'conv', k, t1.ab, t2.ab)
+    # the VALUE of an expression of narrow type (produced by a cast, an assignment, a compound assignment or ++) consumed by a further conversion
+    for prod in CONV2PROD:
+        for t1 in CONV2MID:
+            if prod in ('preinc', 'addassign') and t1 is BOOL:
+                continue
+            for t0 in CONV2SRC:
+                for t2 in CONV2DST:
+                    if not only_char or C in (t1.ab,):
+                        yield ('S2', 'conv2', prod, t0.ab, t1.ab, t2.ab)
     for op in CASOPS:
         for t1 in T14:
             for t2 in T14:
@@ -570,6 +579,45 @@ def _s2_conv(m, spec, nv, extra):
     drive = 'for (int i = 0; i < %d; i++) %s(f@(%s));' % (len(good), outfn(t2), arg(t1, 'A@[i]'))
     return Case('S2', 'S2/conv/%s->%s' % (tclass(m, t1), tclass(m, t2)), fn.replace('@', ''), decl, drive,
                 ['a=%s' % show(t1, a) for a in good], filtered=filt, charty=CHAR in (t1, t2))
+
+
+CONV2PROD = ('cast', 'assign', 'addassign', 'preinc')
+CONV2MID = (SCHAR, UCHAR, CHAR, SHORT, USHORT, BOOL, FLOAT)
+CONV2SRC = (INT, UINT, LONG, ULONG, DOUBLE)
+CONV2DST = (INT, UINT, LONG, ULONG, FLOAT, DOUBLE, BOOL)
+
+
+def _s2_conv2(m, spec, nv, extra):
+    _, _, prod, a0, a1, a2 = spec
+    t0, t1, t2 = BYAB[a0], BYAB[a1], BYAB[a2]
+    good, filt = [], 0
+    for a in m.values(t0, None, extra):
+        try:
+            if prod == 'cast' or prod == 'assign':
+                mid = m.conv(a, t1)
+            elif prod == 'addassign':
+                mid = m.compound('+', t1, m.conv(1, t1), t0, a)
+            else:
+                mid = m.compound('+', t1, m.conv(a, t1), INT, 1)      # ++ on the object that holds (T1)a
+            m.conv(mid, t2)
+            if prod == 'preinc':
+                m.conv(a, t1)
+            good.append(a)
+        except UB:
+            filt += 1
+    if not good:
+        return Case('S2', None, None, '', '', [], filtered=filt)
+    n0, n1, n2 = t0.name, t1.name, t2.name
+    fn = {
+        'cast': '%s f@(%s a) { return (%s)a; }\n' % (n2, n0, n1),
+        'assign': '%s f@(%s a) { %s x; return x = a; }\n' % (n2, n0, n1),
+        'addassign': '%s f@(%s a) { %s x = 1; return x += a; }\n' % (n2, n0, n1),
+        'preinc': '%s f@(%s a) { %s x = a; return ++x; }\n' % (n2, n0, n1),
+    }[prod]
+    decl = fn + tab(m, t0, 'A@', good)
+    drive = 'for (int i = 0; i < %d; i++) %s(f@(%s));' % (len(good), outfn(t2), arg(t0, 'A@[i]'))
+    return Case('S2', 'S2/conv2-%s/%s->%s->%s' % (prod, tclass(m, t0), tclass(m, t1), tclass(m, t2)), fn.replace('@', ''), decl, drive,
+                ['a=%s' % show(t0, a) for a in good], filtered=filt, charty=t1 is CHAR)
 
 
 def _s2_cas(m, spec, nv, extra):
@@ -704,8 +752,10 @@ def s3_specs(only_char=False):
         for w in BFWIDTHS:
             if w > (1 if t is BOOL else t.bits):
                 continue
-            for fill in BFFILL:
-                if fill >= (8 if t is BOOL else t.bits):
+            bits_ = 8 if t is BOOL else t.bits
+            # the listed fills plus the one that puts the field at the very top of its storage unit (nothing after it)
+            for fill in BFFILL + ((bits_ - w,) if 0 < bits_ - w and bits_ - w not in BFFILL else ()):
+                if fill >= bits_:
                     continue
                 for op in BFOPS:
                     if t is BOOL and op not in ('write', 'read', 'arith', 'cas|', 'cas&', 'cas^', 'cas+'):
